@@ -69,7 +69,7 @@ Structural == {"w", "sp", "lf", "-", "?", ":", ",", "[", "]", "{", "}", "#"}
 FocusTable == [
   struct   |-> [p |-> <<>>, n |-> 4, m |-> 5, a |-> Structural],
   struct2  |-> [p |-> <<>>, n |-> 1, m |-> 5, a |-> {"w", "sp", "lf", "-", ":", "[", "]", ","}],
-  block    |-> [p |-> <<>>, n |-> 5, m |-> 7, a |-> {"w", "sp", "lf", "-", ":", "?"}],
+  block    |-> [p |-> <<>>, n |-> 5, m |-> 6, a |-> {"w", "sp", "lf", "-", ":", "?"}],
   indic    |-> [p |-> <<>>, n |-> 3, m |-> 4, a |-> {"&", "*", "!", "|", ">", "'", "dq", "%", "@", "bt", "w", "lf", ".", ":", "sp", "-"}],
   breaks   |-> [p |-> <<>>, n |-> 4, m |-> 4, a |-> {"w", "sp", "lf", "cr", "nel", "ls", "ps", "bom", "np", "tab", ":", "-", "#"}],
   docs     |-> [p |-> <<>>, n |-> 5, m |-> 7, a |-> {"-", ".", "w", "lf", "sp"}],
@@ -85,14 +85,14 @@ FocusTable == [
   tag      |-> [p |-> <<"!">>, n |-> 3, m |-> 4,
                 a |-> {"w", "!", "sp", "lf", "%", "P1", "P2a", "P2b", "Pbad", "<", ">", "tab", ",", "1", "a"}],
   verbatim |-> [p |-> <<"!", "<">>, n |-> 3, m |-> 4, a |-> {"w", "!", "sp", ">", "P1", "P2a", "P2b", "Pbad", "up", "lf", "{", "u"}],
-  literal  |-> [p |-> <<"|">>, n |-> 4, m |-> 6, a |-> {"w", "sp", "lf", "-", "+", "1", "nd"}],
+  literal  |-> [p |-> <<"|">>, n |-> 4, m |-> 5, a |-> {"w", "sp", "lf", "-", "+", "1", "nd"}],
   folded   |-> [p |-> <<">">>, n |-> 3, m |-> 5, a |-> {"w", "sp", "lf", "2", "0", "#", "tab", "cr", "ls"}],
   seqlit   |-> [p |-> <<"-", "sp", "|">>, n |-> 4, m |-> 5, a |-> {"w", "sp", "lf", "1", "nel", "-", ":"}],
   mapblock |-> [p |-> <<"w", ":", "lf">>, n |-> 4, m |-> 5, a |-> {"w", "sp", "lf", ">", "|", "-", ":", "3"}],
   anchors  |-> [p |-> <<>>, n |-> 3, m |-> 4,
                 a |-> {"&", "*", "w", "sp", "lf", ":", "-", "_", "1", "u", "@", "bt", "%", "tab", "]", ",", "nd"}],
   longkey  |-> [p |-> <<>>, n |-> 4, m |-> 5, a |-> {"L", "w", ":", "sp", "lf", "?", "["}],
-  flowkeys |-> [p |-> <<"[">>, n |-> 3, m |-> 5, a |-> {"w", ":", ",", "?", "]", "[", "{", "}", "lf", "sp"}],
+  flowkeys |-> [p |-> <<"[">>, n |-> 3, m |-> 4, a |-> {"w", ":", ",", "?", "]", "[", "{", "}", "lf", "sp"}],
   cont     |-> [p |-> <<"w", "lf", "sp">>, n |-> 4, m |-> 5, a |-> {"-", ".", "w", "sp", "lf", ":", "#"}],
   dstruct  |-> [p |-> <<>>, n |-> 3, m |-> 4, a |-> Structural],
   dindic   |-> [p |-> <<>>, n |-> 3, m |-> 4, a |-> {"&", "*", "!", "|", ">", "'", "dq", "%", "@", "w", "lf", ".", "sp"}],
